@@ -225,7 +225,9 @@ def gen_page_spec(rng, t) -> dict:
 def gen_palette_of_specs(rng, t) -> dict:
     """A small per-run palette of component specs; recipes draw from it so that
     equal specs recur and can be shared as one live object."""
-    ncols_choices = [2, 3, 4] if t["var_cols"] else [rng.choice([2, 3, 4])]
+    ncols_choices = [2, 3, 4] if t["var_cols"] else [rng.choice([1, 2, 3, 4])]
+    if t["var_cols"] and rng.random() < 0.2:
+        ncols_choices = [1, 2, 3]
     pal = {
         "ncols": ncols_choices,
         "page": [gen_page_spec(rng, t) for _ in range(2)] + [{}],
@@ -259,8 +261,13 @@ def gen_palette_of_specs(rng, t) -> dict:
     return pal
 
 
-def _pick_body(rng, t, pal, n, frame_kind, allow_grouping=True):
+def _pick_body(rng, t, pal, n, frame_kind, allow_grouping=True, nrows=None):
     spec = dict(rng.choice(pal["body_any"] + pal["body_n"][n] + pal["body_n"][n]))
+    if nrows and rng.random() < 0.15:
+        # attributes given as a full grid of exactly the table's shape (no broadcasting needed)
+        for key, choices in rng.sample([("border_bottom", BORDERS), ("border_top", BORDERS), ("text_format", FORMATS),
+                                        ("text_justification", JUST)], rng.choice([1, 2])):
+            spec[key] = [[rng.choice(choices) for _ in range(n)] for _ in range(nrows)]
     if allow_grouping and t.get("theme") == "grouping" and frame_kind == "grouped":
         # one grouping role per key column, roles permuted per document
         roles = rng.choice([("page_by",), ("subline_by",), ("group_by",), ("page_by", "subline_by"),
@@ -340,7 +347,7 @@ def gen_recipe(rng, t, pal) -> dict:
         if kind == "multi" and fk == "broken" and rng.random() < 0.7:
             fk, frame = pal["frames"][n][0]
         rec["dfs"].append(frame)
-        body = _pick_body(rng, t, pal, n, fk, allow_grouping=True)
+        body = _pick_body(rng, t, pal, n, fk, allow_grouping=True, nrows=len(frame["cols"][0][2]))
         if kind == "multi" and s > 0 and "new_page" not in body and "page_by" in body and rng.random() < 0.3:
             body["new_page"] = True
         rec["bodies"].append(body)
